@@ -315,7 +315,13 @@ def g_perplexity(rng, cfg, n):
 
 
 def g_psnr(rng, cfg, n):
-    return Batch((ft(rng.grid(n * 4, G5), shape=(n, 2, 2)), ft(rng.grid(n * 4, G5), shape=(n, 2, 2))))
+    x = ft(rng.grid(n * 4, G5), shape=(n, 2, 2))
+    if rng.random() < 0.3:
+        # flat target images (all-black / all-white / beyond the usual range): a constant batch still extends the
+        # running min/max that `data_range=None` derives the range from
+        c = rng.choice([Fr(0), Fr(1), Fr(-1, 2), Fr(3, 2)])
+        return Batch((x, ft([c] * (n * 4), shape=(n, 2, 2))))
+    return Batch((x, ft(rng.grid(n * 4, G5), shape=(n, 2, 2))))
 
 
 def g_wasserstein(rng, cfg, n):
